@@ -18,6 +18,33 @@ BIG = 1000
 U = {torch.float64: 2.0 ** -53, torch.float32: 2.0 ** -24, torch.complex128: 2.0 ** -53}
 
 
+ZERO_L = -(2 ** 30)
+
+
+def L(x):
+    """floor(1024 log2 x), the integer scale used by spec/TraceTrunc.tla"""
+    return int(math.floor(1024.0 * math.log2(x))) if x > 0 and math.isfinite(x) else ZERO_L
+
+
+def record_trunc(routine, d, eps, fn):
+    """run fn() with the chop hooks of torchtt/_decomposition.py captured; returns (result, events of `routine`)"""
+    from torchtt import _verif
+    ev = []
+    _verif.install(lambda name, f: ev.append(f) if name == "chop" and f.get("routine") == routine else None)
+    try:
+        out = fn()
+    finally:
+        _verif.install(None)
+    return out, ev
+
+
+def make_trace(routine, d, eps, total2, err2, ev, label):
+    return {"routine": routine, "d": int(d), "eps2_L": L(eps * eps), "total_L": L(total2), "err2_L": L(err2), "label": label,
+            "ev": [{"bond": int(e["bond"]), "nsv": int(e["nsv"]), "cap": int(min(e["cap"], 2 ** 31 - 1)), "r": int(e["r"]),
+                    "tail_L": L(e["tail2"]), "norm_L": L(e["norm2"]), "epsb2_L": L(e["eps_bond"] ** 2),
+                    "thr_L": L(e["eps_bond"] ** 2 * e["norm2"])} for e in ev]}
+
+
 def handler_chop(st, opts):
     if st["rpy"] == 0:
         return None
@@ -146,6 +173,7 @@ def svd_case(st, opts):
             return {"prop": prop, "cls": cls, "op": "TT(dense)", "key": kk, "msg": "TT-SVD d=%d spectrum^2=%s eps^2=%d/%d caps=%s [%s]: %s" % (
                 d, spec0, p, q, caps, variant, msg), "replay": {"engine": "vf.truncrun", "kind": "trunc", "mode": "svd", "state": st}}
         return P
+    traces = []
     rm = rmax_arg(caps, d)
     kw = {"eps": eps}
     if rm is not None:
@@ -184,11 +212,17 @@ def svd_case(st, opts):
         P = mkP(name)
         stats["calls"] = stats.get("calls", 0) + 1
         try:
-            X = tt.TT(arr, shp, **kw) if shp is not None else tt.TT(arr, **kw)
+            X, ev = record_trunc("to_tt", d, eps, (lambda: tt.TT(arr, shp, **kw)) if shp is not None else (lambda: tt.TT(arr, **kw)))
         except Exception as ex:  # noqa
             problems.append(P("exception", "raised %s: %s" % (type(ex).__name__, str(ex)[:200])))
             continue
         dense = torch.as_tensor(arr).reshape(wM + wN if kind == "ttm" else wN)
+        if isinstance(X, tt.TT) and dt != torch.float32:
+            try:
+                e2 = torch.linalg.norm(project.dense(X.cores).reshape(dense.shape) - dense).item() ** 2
+                traces.append(make_trace("to_tt", len(wN), eps, torch.linalg.norm(dense).item() ** 2, e2, ev, name))
+            except Exception:   # noqa  a malformed result is reported by check_result below
+                pass
         problems += check_result(P, tt, X, kind, wN, wM, caps, [rho_in] * (d - 1), eps, capped, dense, dt, name)
         # drift note: exact ranks vs the ledger (only where no decision sits on an exact tie)
         if name == "plain" and st["ties"] == 0 and isinstance(X, tt.TT):
@@ -196,7 +230,7 @@ def svd_case(st, opts):
                 stats["rank-drift"] = stats.get("rank-drift", 0) + 1
     stats["nontrivial"] = 1 if (d >= 3 and rho_in >= 2 and p > 0) else 0
     sample = {"d": d, "spectrum_energies": spec0, "eps2": [p, q], "caps": caps, "model_ranks": st["ranks"], "model_discarded": st["disc"]}
-    return {"problems": problems, "stats": stats, "sample": sample}
+    return {"problems": problems, "stats": stats, "sample": sample, "artifacts": traces}
 
 
 def build_tt_with_spectrum(tt, sig, d, n, infl, gen, dt, kind="tt", scale=1.0):
@@ -256,6 +290,7 @@ def round_case(st, opts):
             return {"prop": prop_, "cls": cls, "op": "round", "key": kk, "msg": "round d=%d spectrum^2=%s inflated by %d eps^2=%d/%d caps=%s [%s]: %s" % (
                 d, spec0, infl, p, q, caps, variant, msg), "replay": {"engine": "vf.truncrun", "kind": "trunc", "mode": "round", "state": st}}
         return P
+    rtraces = []
     gen = torch.Generator().manual_seed(2000 + seed)
     if all(c >= BIG for c in caps):
         rm = None
@@ -275,10 +310,16 @@ def round_case(st, opts):
         snap = algrun.snapshot([X])
         Rin = [int(r) for r in X.R]
         try:
-            Y = X.round(eps) if rm is None else X.round(eps, rm)
+            Y, ev = record_trunc("round_tt", d, eps, (lambda: X.round(eps)) if rm is None else (lambda: X.round(eps, rm)))
         except Exception as ex:  # noqa
             problems.append(P("exception", "raised %s: %s" % (type(ex).__name__, str(ex)[:200])))
             continue
+        if isinstance(Y, tt.TT) and dt != torch.float32:
+            try:
+                e2 = torch.linalg.norm(project.dense(Y.cores) - dense).item() ** 2
+                rtraces.append(make_trace("round_tt", d, eps, torch.linalg.norm(dense).item() ** 2, e2, ev, name))
+            except Exception:   # noqa
+                pass
         for nn, why in algrun.changed([X], snap):
             problems.append(P("operand-changed", "round changed its operand: %s" % "; ".join(why)))
         wfx = project.wf_problems(X)
@@ -295,7 +336,7 @@ def round_case(st, opts):
                 problems.append(P("rank-monotone", "a rank grew: %s -> %s" % (Rin, [int(r) for r in Y.R])))
     stats["nontrivial"] = 1 if (d >= 3 and rho_in >= 2 and p > 0) else 0
     sample = {"d": d, "spectrum_energies": spec0, "inflate": infl, "eps2": [p, q], "caps": caps, "model_ranks_processing_order": st["ranks"]}
-    return {"problems": problems, "stats": stats, "sample": sample}
+    return {"problems": problems, "stats": stats, "sample": sample, "artifacts": rtraces}
 
 
 def rerun(payload):
